@@ -7,4 +7,9 @@ mkdir -p build evidence replays
 if [ -f tools/translate.py ]; then python3 tools/translate.py; fi
 (cd lean && lake build RosuModel driver)
 (cd harness && cargo build --offline --release --target-dir "$(pwd)/../build/target")
+# feature builds used by C10 / C20 (separate target dirs, as tools/checklib.py names them)
+for feats in raw_strains sync raw_strains,sync; do
+  tag=$(echo "$feats" | tr ',' '-')
+  (cd harness && cargo build --offline --release --features "$feats" --target-dir "$(pwd)/../build/target-$tag") || exit 1
+done
 echo "setup ok"
